@@ -207,6 +207,12 @@ func runCheck(o CheckOpts) (code int) {
 		fc := cs.Funcs[k]
 		fns := findSSA(p, k)
 		if len(fns) == 0 {
+			if twin := mergedTwin(p, cs, k); twin != "" {
+				// two function literals with word-for-word the same contract were merged
+				// into one: the surviving literal is verified against that contract
+				closureNotes = append(closureNotes, fmt.Sprintf("contract of %s: its literal is gone, but %s carries the identical contract and is verified (two literals merged into one)", k, twin))
+				continue
+			}
 			bindFailures = append(bindFailures, fmt.Sprintf("%s: contract (%s) names a function that no longer exists", k, fc.Where))
 			continue
 		}
@@ -702,4 +708,64 @@ func writeReplay(o CheckOpts, obl, reason string, ob *Obligation) string {
 	b, _ := json.MarshalIndent(m, "", " ")
 	os.WriteFile(path, b, 0o644)
 	return path
+}
+
+// contractBody: the raw clause lines of a contract (everything indented under
+// its `//@ func` line).
+func contractBody(p *Program, fc *FuncContract) string {
+	i := strings.LastIndex(fc.Where, ":")
+	if i < 0 {
+		return ""
+	}
+	file, lineS := fc.Where[:i], fc.Where[i+1:]
+	var line int
+	fmt.Sscanf(lineS, "%d", &line)
+	for k, lines := range p.ContractFiles {
+		if !strings.HasSuffix(k, file) || !strings.Contains(k, fc.Pkg+"|") {
+			continue
+		}
+		var out []string
+		for j := line; j < len(lines); j++ { // lines[line] is the line after the header (1-based Where)
+			l := lines[j]
+			if !strings.HasPrefix(l, "//@   ") {
+				break
+			}
+			out = append(out, strings.TrimSpace(l))
+		}
+		return strings.Join(out, "\n")
+	}
+	return ""
+}
+
+// mergedTwin: name is a function literal F$..$N whose function is gone; if a
+// sibling literal of the same enclosing function exists, is under contract, and
+// its contract is word for word the same, return the sibling's name.
+func mergedTwin(p *Program, cs *Contracts, name string) string {
+	i := strings.Index(name, "$")
+	if i < 0 {
+		return ""
+	}
+	fc := cs.Funcs[name]
+	body := contractBody(p, fc)
+	if body == "" {
+		return ""
+	}
+	top := name[:i]
+	var ks []string
+	for k := range cs.Funcs {
+		ks = append(ks, k)
+	}
+	sort.Strings(ks)
+	for _, k := range ks {
+		if k == name || !strings.HasPrefix(k, top+"$") {
+			continue
+		}
+		if _, ok := p.funcs[k]; !ok {
+			continue
+		}
+		if contractBody(p, cs.Funcs[k]) == body {
+			return k
+		}
+	}
+	return ""
 }
